@@ -322,6 +322,12 @@ func (s MinPriorityCoinSelector) CoinSelect(targetValue bchutil.Amount, coins []
 					extendedCoins.PopCoin()
 					continue
 				}
+				// The extended set must still hit the target exactly or
+				// leave at least the minimum change.
+				if !satisfiesTargetValue(targetValue, s.MinChangeAmount, extendedCoins.TotalValue()) {
+					extendedCoins.PopCoin()
+					continue
+				}
 			}
 			return extendedCoins, nil
 		}
